@@ -1152,6 +1152,37 @@ func genProgs(seed uint64, nRandom int, threads bool) []*Prog {
 		}
 	}
 	flush()
+	// second sweep: EVERY distinct memory instruction the generator knows (all widths and extensions, vector loads incl.
+	// splat / zero / extending / lane accesses, stores, atomics), once, with the base in a parameter, aimed at the last
+	// in-bounds, the first out-of-bounds and a near position - so that a wrong width in one instruction's bounds check
+	// does not depend on the random programs hitting it at the boundary
+	{
+		g2 := &ggen{r: c.NewRng(seed ^ 0x5eed5eed), threads: threads}
+		seen := map[string]bool{}
+		for tries := 0; tries < 3000; tries++ {
+			if cur == nil {
+				cur = g2.newProg(len(progs), "sweep")
+			}
+			m := g2.mainOp(cur)
+			if seen[m.Name] || m.Fam == "fill" || m.Fam == "copy" || m.Fam == "init" || m.Fam == "load_store" {
+				continue
+			}
+			seen[m.Name] = true
+			m.Off = uint32(g2.r.Intn(40))
+			m.Base = Src{K: "a"}
+			f := Func{Main: m}
+			g2.finishFunc(cur, &f, true)
+			cur.Funcs = append(cur.Funcs, f)
+			k := len(cur.Funcs) - 1
+			for _, pos := range []string{"last", "first-oob", "near"} {
+				cur.Calls = append(cur.Calls, Call{F: k, X: g2.val(), Y: g2.val(), Pos: pos})
+			}
+			if len(cur.Funcs) >= 12 {
+				flush()
+			}
+		}
+		flush()
+	}
 	for i := 0; i < nRandom; i++ {
 		p := g.newProg(len(progs), "random")
 		nf := 6 + g.r.Intn(5)
